@@ -370,6 +370,23 @@ PROPS = {
                                            "--per-file", "2"], quick=8, thorough=0),
               dict(driver="lockfmt", args=["--rounds", "400", "--scripts", "40", "--gates", "3",
                                            "--per-file", "1"], quick=0, thorough=48)]),
+    "C13": dict(
+        design=[("MC_RainTable.tla", ["MC_RainTable_small.cfg"], ["MC_RainTable_big.cfg", "MC_RainTable_k3.cfg"])],
+        switches=[("Bug_IndexMissMeansDeleted", "MC_RainTable.tla", "MC_RainTable_small.cfg", "GetCorrect"),
+                  ("Bug_SeekNoBlockAdvance", "MC_RainTable.tla", "MC_RainTable_small.cfg", "SeekCorrect"),
+                  ("Bug_PrevStopsAtBlockStart", "MC_RainTable.tla", "MC_RainTable_small.cfg", "IterationCorrect"),
+                  ("Bug_GetSkipsKeyCheck", "MC_RainTable.tla", "MC_RainTable_small.cfg", "GetCorrect"),
+                  ("Bug_SeparatorInsideKey", "MC_RainTable.tla", "MC_RainTable_small.cfg", "GetCorrect")],
+        trace=("RainTable_Trace.tla", "RainTable_Trace.cfg"),
+        work=[dict(driver="tablefmt", args=["--tables", "12", "--big", "1"], quick=8, thorough=272)]),
+    "C14": dict(
+        design=[("MC_RainFilter.tla", ["MC_RainFilter_small.cfg"], ["MC_RainFilter_small.cfg", "MC_RainFilter_big.cfg"])],
+        switches=[("Bug_ReaderIndexOffByOne", "MC_RainFilter.tla", "MC_RainFilter_small.cfg", "NoFalseNegative"),
+                  ("Bug_NoFlushAtFinish", "MC_RainFilter.tla", "MC_RainFilter_small.cfg", "NoFalseNegative"),
+                  ("Bug_FilterAssignedToNextRange", "MC_RainFilter.tla", "MC_RainFilter_small.cfg", "NoFalseNegative")],
+        trace=("RainTable_Trace.tla", "RainTable_Trace.cfg"),
+        work=[dict(driver="filterfmt", args=["--random", "150", "--sets", "14", "--tables", "6", "--big", "1"],
+                   quick=3, thorough=144)]),
     "C15": dict(
         design=[("MC_RainCorrupt.tla", ["MC_RainCorrupt.cfg"], ["MC_RainCorrupt.cfg"])],
         switches=[("Bug_NoBlockCrc", "MC_RainCorrupt.tla", "MC_RainCorrupt.cfg", "NoInvention"),
@@ -388,7 +405,7 @@ PROPS = {
 }
 
 PROP_SEED_BASE = {"C01": 1000, "C03": 3000, "C07": 7000, "C10": 10000, "C11": 11000,
-                  "C02": 2000, "C16": 16000, "C08": 8000, "C05": 5000, "C06": 6000, "C09": 9000, "C15": 15000, "C12": 12000, "C17": 17000, "C04": 4000}
+                  "C02": 2000, "C16": 16000, "C08": 8000, "C05": 5000, "C06": 6000, "C09": 9000, "C15": 15000, "C12": 12000, "C17": 17000, "C04": 4000, "C13": 13000, "C14": 14000}
 
 
 def check_prop(prop, tier, seed):
@@ -475,7 +492,7 @@ def finish(prop, tier, seed, t0, design, switches, recs, vruns, rejects, tstates
         # only if the run is otherwise clean: once a property is violated (e.g. a compaction
         # changed the contents) reads that overlap the change legitimately disagree with the
         # state reconstructed after it
-        real = [v for v in vr["viol"] if not ({"MODEL", "BIND", "C15P"} & set(v["props"]))]
+        real = [v for v in vr["viol"] if not ({"MODEL", "BIND", "C15P", "INFO"} & set(v["props"]))]
         for v in vr["viol"]:
             if "MODEL" in v["props"] or "BIND" in v["props"]:
                 if not real:
@@ -623,6 +640,8 @@ def replay(path):
             "corrupt": ("RainCore_Trace.tla", "RainCore_Trace.cfg"),
             "logfmt": ("RainLog_Trace.tla", "RainLog_Trace.cfg"),
             "lockfmt": ("RainLock_Trace.tla", "RainLock_Trace.cfg"),
+            "tablefmt": ("RainTable_Trace.tla", "RainTable_Trace.cfg"),
+            "filterfmt": ("RainTable_Trace.tla", "RainTable_Trace.cfg"),
             "sched": CONC_TRACE, "live": CONC_TRACE}[rp["driver"]]
     vruns, rejects, _ = validate_traces(files, spec[0], spec[1], 2, "replay")
     for vr in vruns:
